@@ -21,9 +21,11 @@ import (
 // Oracle: every request has exactly one REQ_BEG and one REQ_END with its own tid, the code in REQ_END is
 // the status the client received, a panic gives exactly one Error record and never escapes.
 func rlExtras(s *Stream, rng *Rng) {
-	for hi, handler := range []string{"nano", "text", "json"} {
+	for hi, handler := range []string{"nano", "text", "json", "text+source", "json+source", "nano+source"} {
 		buf := &rlLockedBuf{}
-		opts := logger.NewOptions(slog.Level(0), false, false)
+		// the +source variants report the call site: Relay's own records have none (pc = 0)
+		opts := logger.NewOptions(slog.Level(0), false, strings.HasSuffix(handler, "+source"))
+		handler := strings.TrimSuffix(handler, "+source")
 		var h logger.Handler
 		switch handler {
 		case "nano":
@@ -62,6 +64,11 @@ func rlExtras(s *Stream, rng *Rng) {
 			w.WriteHeader(http.StatusUpgradeRequired)
 		}))
 		mux.Handle("/plain/*", httpd.MethodAll, func(st *httpd.Store) { st.W.WriteHeader(204) })
+		mux.Handle("/bad/:code", httpd.MethodAll, func(st *httpd.Store) {
+			code := 0
+			fmt.Sscanf(st.RouteParam("code"), "%d", &code)
+			st.W.WriteHeader(code) // net/http refuses codes outside 100..999 with a panic: nothing has been sent
+		})
 
 		type want struct {
 			path string
@@ -129,6 +136,10 @@ func rlExtras(s *Stream, rng *Rng) {
 			p = fmt.Sprintf("/outer/%d/panic", code)
 			do("nested dispatch, then panic", newReq("POST", p), code, []want{{p, code}, {fmt.Sprintf("/inner/%d", code), code}}, 1)
 		}
+		for _, code := range []int{99, 1000, 5} {
+			p := fmt.Sprintf("/bad/%d", code)
+			do("WriteHeader with a code net/http refuses", newReq("GET", p), 500, []want{{p, 500}}, 1)
+		}
 		up := newReq("GET", "/ws")
 		up.Header.Set("Upgrade", "websocket")
 		up.Header.Set("Connection", "keep-alive, Upgrade")
@@ -144,7 +155,7 @@ func rlExtras(s *Stream, rng *Rng) {
 		up.Header.Set("X-Allow", "1")
 		do("upgrade answered 426", up, 426, []want{{"/ws", 426}}, 0)
 		// one very large record, then ordinary ones: every later record is a record of its own
-		long := "/plain/" + strings.Repeat(string(rune('a'+hi)), 17000+rng.Intn(9000))
+		long := "/plain/" + strings.Repeat(string(rune('a'+hi%6)), 17000+rng.Intn(9000))
 		do("request target of ~20 KB", newReq("GET", long), 204, []want{{long, 204}}, 0)
 		for i := 0; i < 4; i++ {
 			p := fmt.Sprintf("/plain/after-%d", i)
